@@ -323,7 +323,58 @@ def main() -> int:
             ev.seen(("C13", kind, vclass, route, cls, style))
             if len(ev.samples) < 4 and cls == "accept" and kind in ("date", "enum_str", "number") and route in ("direct", "query"):
                 ev.sample({"kind": kind, "default": v, "route": route, "style": style, "observed": [(a["a"], (x.get("attrs") or {}).get("p") if a["a"] == "construct" else None) for a, x in got][:2]})
-    vd.inconclusive_if(ev.counters.get("constructions", 0) < 200 or ev.counters.get("rejected", 0) < 200, "too few default observations")
+    # ---- valid defaults inside random documents (interplay with nullable / allOf / enum references / parameters of every location)
+    rjobs, rinfo = [], {}
+    for i in range(120 if quick else 2500):
+        d, feats = docs.random_doc(("C13r", seed(), i), defaults=0.5, n_ops=None if i % 2 else 4)
+        if '"default"' not in json.dumps(d):
+            continue
+        le = i % 3 == 2
+        j = run.job(d, want=["manifest"], cfg={"literal_enums": le}, plan={"fn": "c13rand", "args": {"seed": seed() * 7919 + i}})
+        rinfo[j["id"]] = (i, le, feats)
+        rjobs.append(j)
+    from ._ops import derived_local_capture, endpoint_local_capture
+    for j, res in zip(rjobs, run.map(rjobs, timeout=300)):
+        i, le, feats = rinfo[j["id"]]
+        if res.get("_error") or (res.get("sandbox") or {}).get("_error") or res.get("plan_error") or res.get("exc") or not res.get("accepted"):
+            ev.count("random_case_unusable")
+            continue
+        man = res.get("manifest") or {}
+        capture = bool(derived_local_capture(man))
+        ep_capture = endpoint_local_capture(man)
+        dfeats = tuple(sorted(f for f in feats if f.startswith("default:")))
+        for a, x in actions_results(res):
+            if x.get("action_exc"):
+                continue
+            w = {"doc": j["doc"], "literal_enums": le, "action": {k: v for k, v in a.items() if k != "x"}}
+            if a["a"] == "construct" and a["x"].get("expect_defaults"):
+                ev.count("random_constructions")
+                if x.get("exc"):
+                    if not capture:
+                        vd.violation(f"exception:{x['exc']['type']}:random_document", f"{a['cls']}: constructing with only the required arguments raised {x['exc']['type']}: {x['exc']['msg'][:120]}", w)
+                    continue
+                for pn, want in a["x"]["expect_defaults"].items():
+                    ev.count("random_defaults_checked")
+                    enc = (x.get("e") or {}).get(pn, "<absent>")
+                    if not expect.jeq(enc, want):
+                        kindk = "enum" if isinstance(want, str) and any(f == "default:enum" for f in dfeats) and False else type(want).__name__
+                        vd.violation(f"default_encodes_differently:random_document:{kindk}", f"{a['cls']}.{pn}: declared default {want!r} but the omitted argument encodes as {enc!r}", dict(w, property=pn))
+                ev.seen(("C13r", "model", dfeats, le))
+            elif a["a"] == "call" and not ep_capture:
+                xx = a["x"]
+                defaulted = {(loc, u["name"]) for loc in ("query", "header", "cookie") for u in xx["unset"][loc] if u.get("has_default")}
+                if not defaulted:
+                    continue
+                for variant, vr in x.items():
+                    if vr.get("missing") or not vr.get("requests"):
+                        continue
+                    ev.count("random_calls_omitting_defaulted_argument")
+                    for eff, det in expect.check_request(vr["requests"][0], xx):
+                        loc = eff.split(":")[1] if ":" in eff else ""
+                        if eff.startswith("missing:") and any(l == loc and repr(nm) in det for l, nm in defaulted):
+                            vd.violation(f"default_not_transmitted:random_document:{loc}", f"{a['module']}.{variant}: {det}", dict(w, variant=variant))
+                ev.seen(("C13r", "call", tuple(sorted(l for l, _ in defaulted)), le))
+    vd.inconclusive_if(ev.counters.get("constructions", 0) < 200 or ev.counters.get("rejected", 0) < 200 or ev.counters.get("random_defaults_checked", 0) < 30, "too few default observations")
     return run.finish()
 
 
